@@ -104,3 +104,9 @@ CLAIMED['C16'] = ('6/C16', 'Bounded-exhaustive symbolic check: one parameter per
                   'must be rejected. The evaluator used on symbolic values is cross-checked against the real jsonschema package on every '
                   'concrete replay.',
                   'symbolic execution (CrossHair+z3) of schema generation with a JSON-Schema evaluator over symbolic numbers')
+CLAIMED['C17'] = ('6/C17', 'Bounded-exhaustive symbolic check (finite domains): an object with Integer, List, sub-object, allow_refs parameter, a '
+                  'depends(watch=True) method (optionally over a sub-object parameter) and a foreign bound-method watcher; symbolic pre-history, '
+                  'copy mechanism (copy.deepcopy, pickle protocol 2/5), and a post-history of 2 symbolic operations applied to original or '
+                  'copy (set, in-place mutation, Parameter-attribute edit, sub-object set, linking/overriding a reference, source update); '
+                  'copy succeeds, state is equal, nothing mutable is shared, dependent methods and watchers act on the right side only.',
+                  'symbolic execution (CrossHair+z3) of copy/pickle state capture and restore with symbolic histories on both sides')
